@@ -680,4 +680,31 @@ def defineMap (ents : List (Name × MAct)) : Outcome × List Name :=
   | none => (.typeError, [])
   | some names => (.ok, names.eraseDups)
 
+/-- §15.2.4.6 Object.prototype.isPrototypeOf(V): step 1 "If V is not an object, return false" precedes
+    step 2 ToObject(this) (TypeError for null / undefined); step 3 walks [[Prototype]] of V -/
+def isPrototypeOf (r : PRecv) (a : PArg) : PRes :=
+  match a.chain with
+  | none => .f                                   -- 1
+  | some ch =>
+    match r with
+    | .null => .typeError                        -- 2
+    | .undefined => .typeError
+    | .proto p => if ch.contains p then .t else .f   -- 3
+
+/-- §15.2.3.2 Object.getPrototypeOf(O): TypeError unless Type(O) is Object -/
+def getPrototypeOf (a : PArg) : PRes :=
+  match a.chain with
+  | none => .typeError
+  | some [] => .isNull
+  | some (p :: _) => .isProto p
+
+/-- §11.8.6 + §15.3.5.3 [[HasInstance]](V): false if V is not an object, else walk [[Prototype]] -/
+def instanceOf (r : PRecv) (a : PArg) : PRes :=
+  match r with
+  | .proto p =>
+    (match a.chain with
+     | none => .f
+     | some ch => if ch.contains p then .t else .f)
+  | _ => .na
+
 end OttoVerif.C07.Spec
